@@ -3,7 +3,7 @@
 (define-sort Bytes () (Array (_ BitVec 64) (_ BitVec 8)))
 (define-sort F32 () (_ FloatingPoint 8 24))
 (define-sort F64 () (_ FloatingPoint 11 53))
-(define-fun str.equal ((a Str) (b Str)) Bool (= a b))
+(define-fun gostr.equal ((a Str) (b Str)) Bool (= a b))
 ; slice helpers
 (define-fun slice.at.u8 ((m (Array Int Bytes)) (s Slice) (i Idx)) (_ BitVec 8) (select (select m (s.rgn s)) (bvadd (s.off s) i)))
 ; memory frame: every region that existed before (id < r0) other than `keep` has its old contents
